@@ -50,6 +50,19 @@ TopologyStep ==
   /\ Clause("topology-identifier", SetOfSets(Rec.topo_id) = TopoId(T), <<Rec.topo_id, TopoId(T)>>)
   /\ \A i \in DOMAIN Rec.opposite :
         Clause("opposite-helicity-state", (Rec.opposite[i][2] = 1) = IsOpposite(T, ToSet(Rec.opposite[i][1])), Rec.opposite[i])
+  \* compute_boost_chain(i): successive pure boosts into the rest frames of the ancestors of final state i
+  \* (outermost first, the initial state excluded) and finally of i itself, each momentum taken in the frame
+  \* reached so far
+  /\ \A k \in DOMAIN Rec.boost_chains :
+        LET i == Rec.boost_chains[k][1]
+            obs == Rec.boost_chains[k][2]
+            systems == Reverse(Chain(T, {i})) \o <<{i}>>
+        IN Clause("boost-chain",
+                  /\ Len(obs) = Len(systems)
+                  /\ \A n \in DOMAIN obs :
+                        /\ ToSet(obs[n].system) = systems[n]
+                        /\ SeqOfSets(obs[n].frame) = Reverse(SubSeq(systems, 1, n - 1)),
+                  <<i, obs, systems>>)
   /\ PrintT(<<"STAT", "angles-checked", Cardinality(ObsAngles("phi")) + Cardinality(ObsAngles("theta"))>>)
 
 AnglesOf(x, kind) == { [name |-> SeqOfSets(a.name), target |-> ToSet(a.target), frame |-> SeqOfSets(a.frame)] :
